@@ -310,7 +310,8 @@ class Simplex:
                         self.nbasic_basic[var_name].add(s)        
             
                     if var_name not in self.mapping:
-                        self.mapping.update({var_name : 0, s : 0})
+                        self.mapping[var_name] = 0
+                    self.mapping[s] = coeff * self.mapping[var_name]
                     self.bound[s] = (-math.inf, math.inf)
                     if var_name not in self.bound:
                         self.bound[var_name] = (-math.inf, math.inf)
